@@ -10,12 +10,16 @@ CLAIMED = True
 TECHNIQUE = ("estimate functions re-translated from the Python source on every run (tools/py2lean.py) + Lean 4 proofs by "
              "induction that the generated closed forms / recurrences equal a structural count defined on the recursion shape of "
              "the synthesis; shape, cost-table and translator ties; transpile-count oracle")
-LEVEL_TEXT = ("Proved for all sizes, about the definitions generated from the current source: QSD (with/without A.2), CSD, QSD in "
-              "isometry mode with A.2 (all iso>=1), column-by-column (all n, m) and the low-rank phase sum (all n, partitions sizes, "
-              "ranks, schemes ccd/csd x qsd/csd) equal the structural count cnotsOf of the modelled circuit shape. Tied: every generated "
-              "function vs its Python original on an exhaustive small range; the shape model vs the instruction structure of the real "
-              "circuits; the per-object CNOT costs vs transpile. Tested only: the real transpiled CNOT count vs estimate vs structural "
-              "count on Haar-random inputs (n<=5 quick, <=7 thorough; low-rank n<=7 / <=9), Knill scheme (data dependent).")
+LEVEL_TEXT = ("Proved in Lean for ALL sizes, about the definitions generated from the current Python source: the QSD closed form "
+              "(with and without A.2; the ceiling is exact because the numerator is 48 x count), the CSD closed form, the "
+              "_cnot_count_iso recurrence with A.2 for every iso>=1, the column-by-column double loop for every (n, m), and the "
+              "low-rank phase-by-phase sum for every n, partition size, rank and scheme (ccd/csd x qsd/csd) each equal the structural "
+              "count cnotsOf of the modelled circuit shape; _a/_b/_k_s are shift, remainder and bit. Tied each run: every generated "
+              "function vs its Python original on an exhaustive small range (closed forms to n=26); the shape models vs the "
+              "instruction structure of the real circuits (build_unitary, _ccd) and the dispatch of the real low-rank recursion; the "
+              "per-object CNOT cost table and the effect of _apply_a2 vs transpile. Tested only: transpiled CNOT count of the real "
+              "circuits vs estimate vs structural count on Haar-random inputs (unitary n<=6 quick / 7 thorough, isometry n<=5 / 7, "
+              "low-rank n<=8 / 9, all partitions for n<=4 / 5), the Knill scheme, and the m=n column-by-column upper bound.")
 LEVEL_NOTE = ("Trusted: Lean kernel; tools/py2lean.py (kept honest by the second tie); qiskit's transpile/UCGate/UCRZ/UCRY/"
               "DiagonalGate/_apply_a2/two-qubit synthesis cost table (validated numerically each run, generic inputs); numpy SVD rank "
               "of generic inputs; the hand shape models agree with the code beyond the explored sizes by uniformity of the recursion.")
@@ -335,6 +339,10 @@ def gen_ties(ctx, big=False):
     sys.setrecursionlimit(10000)
 
     def tie(fn, args, val, **extra):
+        if isinstance(val, float):
+            # e.g. 2 ** (n - 1) with n < 1: Python leaves the integers, outside the translated fragment
+            ctx.count("gen:outside-fragment(float result)")
+            return
         op = dict({"op": "gen", "fn": fn, "args": list(args)}, **extra)
         ctx.tie(op, [val if isinstance(val, str) else str(int(val))])
         ctx.count("gen:" + fn)
@@ -368,7 +376,7 @@ def gen_ties(ctx, big=False):
         for m in range(0, n + 1 + (1 if n <= 5 else 0)):
             tie("isometry._cnot_count_estimate_ccd", [n, m], qi._cnot_count_estimate_ccd(n, m))
     for n in range(0, 24):
-        tie("lowrank._default_partition", [n], " ".join(str(x) for x in ql._default_partition(n)))
+        tie("lowrank._default_partition", [n], "[" + " ".join(str(x) for x in ql._default_partition(n)) + "]")
     xs = list(range(-2, 1030)) + [2 ** j + d for j in range(11, 40) for d in (-1, 0, 1)]
     for x in xs:
         tie("entanglement._to_qubits", [x], qe._to_qubits(x))
@@ -694,9 +702,9 @@ def run(ctx):
     gen_ties(ctx, big=not quick)
     cost_ties(ctx)
     jobs = []
-    jobs += unitary_cases(ctx, 5 if quick else 7, 5 if quick else 6)
+    jobs += unitary_cases(ctx, 6 if quick else 7, 5 if quick else 6)
     jobs += isometry_cases(ctx, 5 if quick else 6, 3 if quick else 4, None if quick else 7)
-    jobs += lowrank_cases(ctx, 4 if quick else 5, 7 if quick else 9, 4 if quick else 5)
+    jobs += lowrank_cases(ctx, 4 if quick else 5, 8 if quick else 9, 4 if quick else 5)
     jobs += probe_known(ctx)
     results = oracle(ctx, jobs)
     shape_ties(ctx, jobs, results)
@@ -726,6 +734,4 @@ def search(ctx, hints):
 
 
 def replay(ctx, payload):
-    job = payload["replay"]["job"]
-    job = tuple(tuple(x) if False else x for x in job)
-    oracle(ctx, [tuple(job)])
+    oracle(ctx, [tuple(payload["replay"]["job"])])
